@@ -530,7 +530,7 @@ func twoSegmentCopy(f *ssa.Function, mk *ssa.MakeSlice) (bool, string) {
 	}
 	type seg struct {
 		dstLow, srcLow, srcHigh ssa.Value
-		dstOK, srcOK          bool
+		dstOK, srcOK            bool
 	}
 	parse := func(c *ssa.Call) seg {
 		var s seg
